@@ -111,6 +111,20 @@ def _grid_case(seed, i):
         o.pop("target_all_poloidal_spacing_length", None)
         o.pop("xpoint_poloidal_spacing_length", None)
         o["y_boundary_guards"] = (i // 13) % 2
+    if i % 13 == 11:
+        # stratum: a slightly disconnected double null gridded as a connected one (the
+        # default nx_inter_sep = 0): every region shares one radial psi grid although the
+        # two separatrices differ; no faults, with and without workers
+        rng4 = core.stream(s, "dn-connected")
+        case = FS.make_case(rng4, s, kind="worker" if (i // 13) % 2 else "none",
+                            entry=("api-tok", "geqdsk")[(i // 26) % 2],
+                            geom=("udn", "ldn", "udn2")[(i // 13) % 3])
+        case["fault"].update({"buggify": None, "clock": None, "sub": "fallback"})
+        if case["kind"] == "worker":
+            case["np"] = 2 + (i // 13) % 2
+        case["options"].pop("refine_timeout", None)
+        case["options"].update({"nx_inter_sep": 0, "nx_sol": rng4.choice((1, 2)),
+                                "psinorm_sol": rng4.choice((1.2, 1.4))})
     case["check_psi"] = True
     return case
 
